@@ -5,6 +5,7 @@
 set -u
 SEED=$(realpath "$1"); shift
 export GOFLAGS=-mod=mod GOPROXY=off GOSUMDB=off GOTOOLCHAIN=local
+if [ -n "$(git -C /repo status --porcelain)" ]; then echo "/repo has uncommitted changes; commit first"; exit 2; fi
 WT=$(mktemp -d /tmp/seedwt.XXXXXX)
 git -C /repo worktree add -q --detach "$WT" HEAD || exit 2
 trap 'git -C /repo worktree remove --force "$WT" >/dev/null 2>&1; git -C /repo checkout -q -- . 2>/dev/null' EXIT
